@@ -1,6 +1,7 @@
 package checks
 
 import (
+	"git.defalsify.org/vise.git/vm"
 	"bytes"
 	"context"
 	"fmt"
@@ -84,6 +85,9 @@ func C17() *vk.Check {
 }
 
 func runC17(c *vk.Ctx) {
+	// the application has registered a custom input format (engine.AddValidInput); what matches neither that nor
+	// the built-in format is still refused
+	vm.RegisterInputValidator(7001, "^#r[0-9]+x[0-9]+$")
 	n := c.N(1200, 40000)
 	for i := 0; i < n; i++ {
 		if !c.Mine(i) {
